@@ -140,7 +140,7 @@ NP_NAMES = {"abs", "absolute", "maximum", "minimum", "divide", "zeros_like", "on
             "less_equal", "int32", "int64", "float64", "bool_", "pi", "nan", "copy", "array",
             "max", "min", "newaxis", "cumsum", "nan_to_num", "full_like", "logical_and",
             "logical_or", "logical_not", "iterable", "shape", "square", "inf", "ndarray", "bool",
-            "sign", "unique", "mean", "repeat", "nanmax", "nanmin"}
+            "sign", "unique", "mean", "repeat", "nanmax", "nanmin", "insert"}
 
 
 class Evaluator:
@@ -1778,6 +1778,9 @@ class Evaluator:
             return self.call_closure(fn, args, kwargs)
         if isinstance(fn, NpFn):
             from . import npmodel
+            ov = self.hooks.get("np") if isinstance(self.hooks, dict) else None
+            if ov and fn.name in ov:
+                return ov[fn.name](self, args, kwargs)      # a unit may supply its own (assumed) contract for a numpy call
             return npmodel.call(self, fn.name, args, kwargs, lineno, env)
         if isinstance(fn, Builtin):
             from . import npmodel
